@@ -19,6 +19,7 @@ type CfgOpts struct {
 	Layout     bool // random comments / blank lines / multi-byte text
 	Simple     bool // only literals and plain references (C19, JSON-expressible)
 	NoDynamic  bool
+	HalfTyped  int // percent chance that an attribute value is a half-typed fragment
 }
 
 type cfgWriter struct {
@@ -168,7 +169,14 @@ func (w *cfgWriter) body(b m.BodyM, level int, selfOK bool) {
 	}
 }
 
+var halfTyped = []string{"provider::aws::f", "provider::aws::", "ns::", "var.", "var.a.", "f(", "fn(var.a, ", "[", "[var.a, ", "{", "{ a = ", "{ a = 1, ",
+	"\"${", "\"${var.", "\"abc", "true ? ", "true ? 1 : ", "1 + ", "!", "[for ", "[for x in ", "[for x in var.a : ", "var.a[", "var.a[\"", "self.", "count.", "each.", "<<EOT\n  x\n",
+	"lis", "t", "f", "nu", "obj", "list(", "object({", "(", "-"}
+
 func (w *cfgWriter) attrLine(level int, name, expr string) {
+	if w.o.HalfTyped > 0 && w.g.Chance(w.o.HalfTyped) {
+		expr = Pick(w.g, halfTyped)
+	}
 	eq := " = "
 	if w.o.Layout {
 		eq = Pick(w.g, []string{" = ", " = ", "=", "   = ", " =  "})
@@ -384,6 +392,9 @@ func (g G) exprOfType(t cty.Type, env exprEnv, depth int) string {
 	}
 	switch g.Weighted(34, 20, 8, 8, 6, 5, 5, 4, 4, 3, 3, 2, 2) {
 	case 11:
+		if g.Chance(40) {
+			return Pick(g, []string{"provider::aws::f", "provider::aws::", "ns::", "ns::f", "provider::aws::fo"}) // half-typed namespaced function
+		}
 		return "null"
 	case 12:
 		return g.exprOfType(cty.Bool, env, depth-1) + " ? null : " + g.exprOfType(t, env, depth-1)
